@@ -258,3 +258,38 @@ def h_client_release(ca, cb, ncr, n, co, lreq, fail_first):
     reach()
     check(_client_snapshot([n0, n1]) == pre, 'after release %s != before %s',
           _client_snapshot([n0, n1]), pre)
+
+
+# ------------------------------------------------------------------------------
+# executor side: exactly one unschedule publication per task (shared with C07)
+#
+import harness.c07 as _c07                                        # noqa: E402
+
+
+@obligation(params={'sw1': (0, _c07.M1), 'ebp': (0, 3), 'code': (0, 1),
+                    'first': (0, 1), 'two_cancel': 'bool'},
+            shapes={'quick': [{}], 'thorough': [{}]},
+            partition={'quick': ('sw1', 21), 'thorough': ('sw1', 41)},
+            timeout={'quick': 300, 'thorough': 900},
+            funcs=_c07.FUNCS,
+            bounds='as C07 h_cancel_vs_watcher with one pre-emption: a launched '
+                   'task, cancel request(s) racing with the process watcher, '
+                   'process exit before poll 1..3 or never',
+            stubs=['see C07'])
+def h_exec_release_cancel(sw1, ebp, code, first, two_cancel):
+    """cancel racing with collection: resources are released exactly once"""
+    _c07.h_cancel_vs_watcher(sw1, 0, ebp, code, first, two_cancel, quick=False)
+
+
+@obligation(params={'sw1': (0, _c07.M2), 'ebp': (0, 2), 'cancel': (0, 2),
+                    'fault': (0, 5)},
+            partition={'quick': ('sw1', 31), 'thorough': ('sw1', 61)},
+            timeout={'quick': 300, 'thorough': 900},
+            funcs=_c07.FUNCS,
+            bounds='as C07 h_launch_vs_cancel with one pre-emption: launch '
+                   '(incl. 5 launch fault points) racing with a cancel request '
+                   'and the watcher',
+            stubs=['see C07'])
+def h_exec_release_launch(sw1, ebp, cancel, fault):
+    """launch errors and late cancels release resources exactly once"""
+    _c07.h_launch_vs_cancel(sw1, 0, ebp, 0, cancel, fault, B=1)
